@@ -92,16 +92,16 @@ def ContextualHook_register (self : MW V) (module : Nat) : Except (Err × MW V) 
   match (self.st.mons self.me).handle with
   | some _ => .error (.RuntimeError, self)
   | none =>
-    .ok { self with st :=
-      setMon { self.st with post := insertPost self.st.post (self.st.mons self.me).prepend (self.st.nextId, self.me),
+    .ok { self with st := (setMon
+      { self.st with post := insertPost self.st.post (self.st.mons self.me).prepend (self.st.nextId, self.me),
                             nextId := self.st.nextId + 1 }
-        self.me { self.st.mons self.me with handle := some self.st.nextId, layer := module } }
+        self.me { self.st.mons self.me with handle := some self.st.nextId, layer := module }) }
 
 /-- `self.deregister()` (`Hook.deregister`, inherited): `handle.remove()`, the handle is forgotten; never raises -/
 def Hook_deregister (self : MW V) : MW V :=
-  { self with st :=
-      setMon { self.st with post := removeHandle self.st.post (self.st.mons self.me).handle }
-        self.me { self.st.mons self.me with handle := none } }
+  { self with st := (setMon
+      { self.st with post := removeHandle self.st.post (self.st.mons self.me).handle }
+        self.me { self.st.mons self.me with handle := none }) }
 
 /-- `weakref.ref(module)`: refers to the module without keeping it alive — its identity -/
 def weakref_ref (module : Nat) : Nat := module
@@ -143,8 +143,13 @@ def call_map2 (self : MW V) (x y : V) : Except (Err × MW V) (List V) :=
   | .ok l => .ok l
   | .error e => .error (e, self)
 
-/-- a call on `self.reducer_`: logged, its result is the reducer's business (C07 / C08) -/
-def reducer_do (self : MW V) (c : RCall V) : MW V × V := ({ self with log := self.log ++ [c] }, self.fns.result c)
+/-- the reducer object of a monitor: the one stored in `self.reducer_` (the property `Monitor.reducer` returns it) -/
+inductive ReducerRef | reducer_
+deriving DecidableEq, Repr
+
+/-- a call on the reducer `r`: logged, its result is the reducer's business (C07 / C08) -/
+def reducer_do (self : MW V) (r : ReducerRef) (c : RCall V) : MW V × V :=
+  ({ self with log := self.log ++ [c] }, self.fns.result c)
 
 /-- a generator whose element expression may raise: elements in order, the first exception wins -/
 def mapE {ε α β : Type} (f : α → Except ε β) : List α → Except ε (List β)
